@@ -276,7 +276,7 @@ def run(ctx):
         ctx.log("T2: source no longer matches the accepted idiom:", e)
     ok, res = ctx.coq_obligations(["Gen/ConvTableGen.v", "Data/ConvertProofs.v", "Data/ConvertRefine.v", "Data/ConvertTheorems.v",
                                     "Data/ConvertExamples.v", "Data/TwoObjProofs.v", "Data/ChainProofs.v", "Data/ChainExamples.v",
-                                    "Data/ChainLift.v", "Data/ChainNProofs.v", "Data/ChainNExamples.v",
+                                    "Data/ChainLift.v", "Data/ChainNProofs.v", "Data/ChainNExamples.v", "Data/TwoObjVariants.v",
                                     "Properties_C05.v"])
 
     # ------------------------------------------------------------------ 2. validate T2
